@@ -113,7 +113,7 @@ def build(ctx):
                lm is not None and rm is not None and q.cmp_equiv(lm, le) and q.cmp_equiv(rm, gt), "", inner[0])
         cnt = q.sub(inner[0].args[0], const("build")) if inner[0].args else None
         want = sum((q.sub(atom(("getattr", e.args[0], "shape")), 0) for e in rc), const(0))
-        ctx.ob("FRM", site, "node count = sizes of the two selections", cnt is not None and T.same(cnt, want), q.short(cnt, 100) if cnt is not None else "", inner[0])
+        ctx.ob("FRM", site, "node count = sizes of the two selections", cnt is not None and T.same(q.len_norm(cnt), q.len_norm(want)), q.short(cnt, 100) if cnt is not None else "", inner[0])
         ctx.ob("FRM", site, "node remembers axis and midpoint", kw.get("axis") == axis and kw.get("midpoint_at_axis") is not None and T.same(kw["midpoint_at_axis"], mid), "", inner[0])
     # stop rule
     stop = T.mk_or([T.mk_cmp("<=", n, P("count_ubound")),
